@@ -50,6 +50,27 @@ func Base(seed uint64) string {
 	return s
 }
 
+// WellKnownHRPs are human-readable parts an implementation may treat specially: the prefixes this
+// repository defines (pkg/bech32/address), those of other deployed Bech32 / Bech32m formats, and the
+// human-readable parts of the BIP-173 / BIP-350 test vectors.
+var WellKnownHRPs = []string{"iota", "atoi", "smr", "rms", "bc", "tb", "bcrt", "ltc", "tltc", "lnbc", "lntb", "cosmos", "addr", "stake", "a", "an83characterlonghumanreadablepartthatcontainsthenumber1andtheexcludedcharactersbio", "abcdef", "split", "test", "?", "1", "x1x", "10a", "bech32", "bech32m"}
+
+// BaseHRP builds a valid lower-case string with the given human-readable part.
+func BaseHRP(seed uint64, hrp string) string {
+	r := fw.SubRng(int64(seed), "bechscan-basehrp", hrp)
+	n := 5 * (1 + r.Intn(4))
+	for len(hrp)+1+(8*n+4)/5+6 > 90 {
+		n--
+	}
+	data := make([]byte, n)
+	r.Read(data)
+	s, ok := bech32m.Encode(hrp, data)
+	if !ok {
+		panic("bechscan: model encoder refused a base")
+	}
+	return s
+}
+
 func symOf(c byte) byte {
 	for i := 0; i < 32; i++ {
 		if charset[i] == c {
